@@ -450,6 +450,10 @@ def pipeline(tier):
         res["modes"][t["mode"]] = res["modes"].get(t["mode"], 0) + 1
     res["script_diverged"] = sum(1 for t in traces if t["mode"] == "script" and t.get("diverged", -1) >= 0)
     res["events"] = sum(len(t["events"]) for t in traces)
+    spins = [e for t in traces for e in t["events"] if e["ev"] == "Spin"]
+    res["gate_round_trips"] = sum(e["n"] for e in spins)
+    res["gate_round_trip_peak"] = max([e["peak"] for e in spins] or [0])
+    res["contended_gate_schedules"] = sum(1 for t in traces if t["id"].startswith("gate-"))
     # 4. property monitor
     viols, n = vlib.eval_traces(SPEC, "RunnerTraceP", "RunnerTraceP.cfg", [to_p_line(t) for t in traces], shards=12)
     tr_by_id = {t["id"]: t for t in traces}
@@ -552,6 +556,9 @@ def check(prop, tier):
         "design_configs": res["design"]["configs"],
         "real_executions_by_mode": res["modes"],
         "events_evaluated_by_monitor": res["events"],
+        "gate_round_trips_under_stress": res.get("gate_round_trips", 0),
+        "largest_executing_count_seen_during_round_trips": res.get("gate_round_trip_peak", 0),
+        "controlled_schedules_with_more_ready_targets_than_slots": res.get("contended_gate_schedules", 0),
         "distinct_controlled_schedules": res["distinct_schedules"],
         "tlc_scripted_schedules_diverged": res["script_diverged"],
         "traces_validated_against_design_spec": res["drift_checked"],
